@@ -2,5 +2,6 @@ SPECIFICATION MCSpec
 CONSTANTS
   MaxFrags = 4
   Quick = TRUE
+  CtlText = FALSE
   Layout = TRUE
 INVARIANTS CursorExact PositionExact HtmlExact Coverage TrimFlags LexesCleanly AgreeAtEnd Emit
